@@ -940,7 +940,7 @@ fn main() {
         machinery("C20 cases are reproduced by re-running ./check C20 quick (the failing script is in the replay file)");
     }
     let quick = ctx.quick();
-    let max_len = if quick { 3 } else { 5 };
+    let max_len = if quick { 3 } else { 7 };
     let mut t = Tally {
         ctx,
         stats: Stats::default(),
